@@ -465,9 +465,18 @@ func main() {
 		r.Finish()
 	}
 
-	lists := userLists(r.Thorough())
+	// searches: quick = one-user lists to depth 4; thorough = one-user lists to depth 5 and
+	// one-/two-user lists to depth 3 (two separate BFS runs, counts added)
+	type search struct {
+		name  string
+		lists [][]cred
+		depth int
+	}
+	searches := []search{{"one_user_lists", userLists(false), r.Pick(4, 5)}}
+	if r.Thorough() {
+		searches = append(searches, search{"one_and_two_user_lists", userLists(true), 3})
+	}
 	mgrDepth := 2
-	maxDepth := r.Pick(4, 6)
 	staleTotal := make(chan int, 1024)
 	staleSum := 0
 	doneStale := make(chan bool)
@@ -478,62 +487,67 @@ func main() {
 		doneStale <- true
 	}()
 	searchStart := time.Now()
-	spec := xstate.Spec[event]{
-		MaxDepth: maxDepth,
-		Workers:  16,
-		// quick tier: stop after 40 s of search so that the whole run stays below one minute on
-		// a loaded machine; the run is then reported as capped (levels below the cap complete)
-		Stop: func() bool {
-			return r.TimeUp() || (r.Quick() && time.Since(searchStart) > 40*time.Second)
-		},
-		Enabled: enabled(lists),
-		Replay: func(hist []event) xstate.Result {
-			if len(hist) == 0 {
-				return xstate.Result{Key: "empty"}
-			}
-			stale := 0
-			withMGR := len(hist) <= mgrDepth
-			key, v := replayBoth(hist, withMGR, false, &stale)
-			staleTotal <- stale
-			if withMGR {
-				r.Add("manager_rig_histories", 1)
-			}
-			if v != nil {
-				// confirm a UserManager-level violation on the real Manager + Session path
-				if !withMGR && len(hist) <= 3 {
-					if _, v2 := replayBoth(hist, true, false, &stale); v2 == nil {
-						ev.Fatalf("violation on the UserManager rig does not reproduce through Manager/Session: %s", v.msg)
-					}
-					r.Add("violations_confirmed_through_manager", 1)
+	var states, transitions int64
+	perSearch := map[string]interface{}{}
+	for _, sr := range searches {
+		lists, maxDepth := sr.lists, sr.depth
+		spec := xstate.Spec[event]{
+			MaxDepth: maxDepth,
+			Workers:  16,
+			// stop after 30 s (quick) / 8 min (thorough) of search so that the run stays inside its
+			// tier budget on a loaded machine; it is then reported as capped (levels below complete)
+			Stop: func() bool {
+				return r.TimeUp() || time.Since(searchStart) > time.Duration(r.Pick(30, 480))*time.Second
+			},
+			Enabled: enabled(lists),
+			Replay: func(hist []event) xstate.Result {
+				if len(hist) == 0 {
+					return xstate.Result{Key: "empty"}
 				}
-				return xstate.Result{Violation: v.msg, Features: v.features}
-			}
-			last := hist[len(hist)-1]
-			return xstate.Result{Key: key, Outcome: last.Op + "/" + strconv.Itoa(len(applyRef(hist)))}
-		},
-		OnViolation: func(hist []event, res xstate.Result) {
-			r.Violation(ev.Witness{Summary: res.Violation, Features: res.Features, Case: kase{History: hist}})
-		},
-		OnOutcome: func(o string) { r.Distinct("outcomes", o) },
+				stale := 0
+				withMGR := len(hist) <= mgrDepth
+				key, v := replayBoth(hist, withMGR, false, &stale)
+				staleTotal <- stale
+				if withMGR {
+					r.Add("manager_rig_histories", 1)
+				}
+				if v != nil {
+					// confirm a UserManager-level violation on the real Manager + Session path
+					if !withMGR && len(hist) <= 3 {
+						if _, v2 := replayBoth(hist, true, false, &stale); v2 == nil {
+							ev.Fatalf("violation on the UserManager rig does not reproduce through Manager/Session: %s", v.msg)
+						}
+						r.Add("violations_confirmed_through_manager", 1)
+					}
+					return xstate.Result{Violation: v.msg, Features: v.features}
+				}
+				last := hist[len(hist)-1]
+				return xstate.Result{Key: key, Outcome: last.Op + "/" + strconv.Itoa(len(applyRef(hist)))}
+			},
+			OnViolation: func(hist []event, res xstate.Result) {
+				r.Violation(ev.Witness{Summary: res.Violation, Features: res.Features, Case: kase{History: hist}})
+			},
+			OnOutcome: func(o string) { r.Distinct("outcomes", o) },
+		}
+		st := xstate.BFS(spec)
+		if st.Capped {
+			r.Capped(fmt.Sprintf("search %s stopped by the time budget at depth %d (all shallower levels complete)", sr.name, st.MaxDepth))
+		}
+		states += st.States
+		transitions += st.Transitions
+		perSearch[sr.name] = map[string]interface{}{"states": st.States, "transitions": st.Transitions, "depth_reached": st.MaxDepth,
+			"max_depth_bound": maxDepth, "frontier_per_depth": st.PerDepth, "events_alphabet": 3*len(lists) + 3, "user_lists": len(lists)}
 	}
-	st := xstate.BFS(spec)
 	close(staleTotal)
 	<-doneStale
-	if st.Capped {
-		r.Capped(fmt.Sprintf("BFS stopped by the time budget at depth %d (all shallower levels complete)", st.MaxDepth))
-	}
-	r.Set("states", st.States)
-	r.Set("transitions", st.Transitions)
-	r.Set("traces_validated_against_impl", st.Transitions)
-	r.Set("depth_reached", st.MaxDepth)
-	r.Set("max_depth_bound", maxDepth)
-	r.Set("frontier_per_depth", st.PerDepth)
-	r.Set("events_alphabet", 3*len(lists)+3)
-	r.Set("user_lists", len(lists))
+	r.Set("states", states)
+	r.Set("transitions", transitions)
+	r.Set("traces_validated_against_impl", transitions)
+	r.Set("searches", perSearch)
 	r.Set("stale_password_entries_seen", staleSum)
 	r.Sample(kase{History: []event{{Op: "set", NS: "A", Users: []cred{{"u", "p"}}}, {Op: "set", NS: "B", Users: []cred{{"u", "p:q"}}}, {Op: "del", NS: "B"}}})
 	r.Sample(kase{History: []event{{Op: "set", NS: "A", Users: []cred{{"u:", ":"}}}, {Op: "set", NS: "A", Users: []cred{{"v", "q"}}}}})
-	r.Set("rule", "BFS over histories of set(ns, user list) / del(ns), ns in {A,B,C}, user lists of one user (thorough: also two users) over names {u, v, 'u:'} x passwords {p, q, 'p:q', ':', 'p:'}; an event is enabled only if no other namespace holds the same user+password; states are deduplicated on the canonical content of UserManager.users / userNamespaces plus the reference state; every transition is executed on fresh real objects and followed by the oracle over all 15 pairs + 7 probe pairs.")
+	r.Set("rule", "BFS over histories of set(ns, user list) / del(ns), ns in {A,B,C}, user lists of one user to depth 4 (thorough: depth 5, plus a second search with one- and two-user lists to depth 3) over names {u, v, 'u:'} x passwords {p, q, 'p:q', ':', 'p:'}; an event is enabled only if no other namespace holds the same user+password; states are deduplicated on the canonical content of UserManager.users / userNamespaces plus the reference state; every transition is executed on fresh real objects and followed by the oracle over all 15 pairs + 7 probe pairs.")
 	r.Assume("a pair whose password check passes but for which GetNamespaceByUser returns \"\" does not authenticate: handleHandshakeResponse binds namespace \"\" and IsAllowConnect refuses the connection (counted as stale_password_entries_seen)")
 	pprof.StopCPUProfile()
 	r.Assume("the control plane keeps user+password unique across namespaces and user names unique inside a namespace (cc checkForDuplicateUsernameAndPassword, models verifyUsers)")
